@@ -36,6 +36,27 @@ def run(db, res, tier):
   mask_key = hv_key(dict((p.name, v) for p, v in l_mask[0].bindings)["mask_out"])
   kb = dict((p.name, v) for p, v in l_key[0].bindings)
   res.ob(hv_key(kb["reset_in"]) == mask_key, "mask->keyframe", Finding("R-BIND.1", "io.reset_data_keyframe|reset_keyframe_data|reset_in", f"keyframe copy is gated by `{kb['reset_in'].text}`, not by the validity mask", l_key[0].loc))
+  # the mask is a value of THIS call: a scratch array allocated in the call and (re)computed by the validity kernel on every
+  # path that reaches its consumers. A mask object that outlives the call, or a validity launch on only some of the paths,
+  # lets an earlier call's validity decide which worlds are reset now.
+  from ..hostir import Phi as _Phi, Temp as _Temp, root_array as _root
+
+  mroot = _root(dict((p.name, v) for p, v in l_mask[0].bindings)["mask_out"])
+  res.ob(
+    isinstance(mroot, _Temp),
+    "valid_key_mask|fresh-scratch",
+    Finding("R-GATE.7", "io.reset_data_keyframe|mask|not-a-fresh-scratch", f"the validity mask `{getattr(mroot, 'text', mroot)}` is not a scratch array allocated by this call ({type(mroot).__name__}): it can carry the validity of an earlier call", l_mask[0].loc),
+  )
+  for e in enters + l_key:
+    ok = any(set(lm.pc) <= set(e.pc) and lm.seq < e.seq for lm in l_mask)
+    res.ob(
+      ok,
+      f"valid_key_mask|dominates|{e.kind}|{len(e.pc)}",
+      Finding("R-GATE.7", f"io.reset_data_keyframe|mask|validity-launch-does-not-dominate-{'reset_data' if e.kind == 'enter' else 'keyframe-copy'}", f"the validity kernel runs only under [{'; '.join(f'{t}={p}' for t, p in l_mask[0].pc)}] but the mask is consumed under [{'; '.join(f'{t}={p}' for t, p in e.pc)}]: on the other paths the mask keeps whatever it held before", e.loc),
+    )
+  from ..rules import r_global
+
+  r_global.check_object_stashes(res, sm)
   inner = [e for e in evs if e.kind == "launch" and e.kernel is not None and len(e.stack) >= 2 and e.stack[1] == "io.reset_data" and enters[0].seq < e.seq < l_key[0].seq]
   gated = 0
   for e in inner:
@@ -132,7 +153,7 @@ def run(db, res, tier):
   if rng:
     conds = " ".join(t for t, _ in rng[0].pc)
     res.ob("< 0" in conds and ">= m.nkey" in conds, "scalar-key-range|formula", Finding("R-GATE.2", "io.reset_data_keyframe|scalar-key-formula", f"scalar key validation is `{conds}`, expected `key < 0 or key >= m.nkey`", kfi.file))
-  res.rule_text = "R-LAYOUT: the fields written by reset_keyframe_data, their key_* sources, world/key indices and loop extents equal mj_resetDataKeyframe's {time,qpos,qvel,act,mocap_pos,mocap_quat,ctrl}; R-GATE: the validity mask is computed on the caller's key array itself (no converted copy), all accesses are dominated by the validity mask `0 <= key < nkey`, reset_data(mask) precedes the copy, scalar keys out of range raise before any launch"
+  res.rule_text = "R-LAYOUT: the fields written by reset_keyframe_data, their key_* sources, world/key indices and loop extents equal mj_resetDataKeyframe's {time,qpos,qvel,act,mocap_pos,mocap_quat,ctrl}; R-GATE: the validity mask is computed on the caller's key array itself (no converted copy), all accesses are dominated by the validity mask `0 <= key < nkey`, the mask is a scratch array of the call written by a validity launch that dominates reset_data and the keyframe copy (R-GATE.7), reset_data(mask) precedes the copy, scalar keys out of range raise before any launch"
   res.explanation = "Decides the field-set, source, extent, masking, ordering and rejection clauses of C14 for every key array and world count. Values of a fresh reset are C13's subject."
   res.extra["analysed"] = {"kernels": [kfi.key, mfi.key], "host_events": len(evs), "reset_data_launches": len(inner)}
   res.assumptions += ["mj_resetDataKeyframe's field set as recorded in tables/mujoco_layouts.py"]
